@@ -506,7 +506,7 @@ func c15Child(r *ev.Run, batch int) {
 			if len(fs) > 0 {
 				report(r, m, pre, ops, fs, judge)
 			}
-			if batch == 0 && si == 0 && r.NeedSample() && len(ops) > 2 {
+			if r.NeedSample() && len(ops) > 2 {
 				r.Sample(map[string]interface{}{"transaction": opsJSON(ops)})
 			}
 			post, err := m.Snapshot(e.DB)
